@@ -11,7 +11,7 @@
 (***************************************************************************)
 EXTENDS Client, FiniteSets
 
-CONSTANTS Mode,        \* "session" or "task"
+CONSTANTS Mode,        \* "session", "task" or "serial"
           NReq,        \* requests r = 1..NReq (shapes below)
           MaxCmds, MaxPeer, MaxTicks, MaxAttempts, Cap, MaxTO, RMin, RMax,
           WithAbort    \* BOOLEAN
@@ -30,10 +30,23 @@ ReqShape(r) ==
 
 (* frames a peer may send, relative to the request in flight *)
 GoodReplyPdu(req) == IF req.fc = 3 THEN <<3, 2, 0, 7>> ELSE SubSeq(EncodeRequest(req), 1, 5)
+RtuPeerFrames ==
+  LET req == s.cur.req
+      good == RtuFrame(1, GoodReplyPdu(req))
+  IN IF s.pc = "await"
+     THEN {good,
+           RtuFrame(2, GoodReplyPdu(req)),                                  \* another station answers
+           RtuFrame(1, <<req.fc + 128, 2>>),                                \* exception
+           RtuFrame(1, <<req.fc, 9, 9, 9, 9>>),                             \* malformed reply
+           [good EXCEPT ![Len(good)] = (@ + 1) % 256],                      \* CRC mismatch
+           SubSeq(good, 1, 3)}                                              \* partial frame
+     ELSE {RtuFrame(1, <<3, 2, 0, 7>>), <<1, 77>>}                          \* unsolicited; unknown function
+
 PeerFrames ==
   LET tx == s.cur.tx
       req == s.cur.req
-  IN IF s.pc = "await"
+  IN IF Mode = "serial" THEN RtuPeerFrames
+     ELSE IF s.pc = "await"
      THEN {MbapFrame(tx, 1, GoodReplyPdu(req)),
            MbapFrame((tx + TxMod - 1) % TxMod, 1, GoodReplyPdu(req)),      \* stale by one
            MbapFrame(tx, 1, <<req.fc + 128, 2>>),                           \* exception
@@ -44,7 +57,7 @@ PeerFrames ==
            <<0, 0, 0, 1, 0, 2, 1, 3>>}
 
 InitMC ==
-  /\ s = Init0(Mode, "tcp", Cap, MaxTO, RMin, RMax, 0)
+  /\ s = Init0(Mode, IF Mode = "serial" THEN "rtu" ELSE "tcp", Cap, IF Mode = "serial" THEN 0 ELSE MaxTO, RMin, RMax, 0)
   /\ out = NoOut
   /\ hist = [r \in 1..NReq |-> 0]
   /\ subm = {}
@@ -70,6 +83,9 @@ Env ==
   \/ /\ Mode = "task" /\ s.attempts <= MaxAttempts
      /\ \E res \in {"ok", "err"} : ConnectorResult(res)
      /\ UNCHANGED <<bud, subm>>
+  \/ /\ Mode = "serial" /\ s.attempts <= MaxAttempts /\ bud.cmds < MaxCmds
+     /\ PortSet(~s.portOk)
+     /\ bud' = [bud EXCEPT !.cmds = @ + 1] /\ UNCHANGED subm
   \/ /\ Mode = "session" /\ s.attempts < MaxAttempts /\ NewConnection
      /\ UNCHANGED <<bud, subm>>
 
@@ -77,12 +93,15 @@ Env ==
 (* Listener monitor (C13): which state may follow which                    *)
 (***************************************************************************)
 LegalNext(prev, nxt, pre) ==
-  CASE nxt = "Disabled" -> prev \in {"none", "Connected", "Connecting", "WaitAfterFailedConnect", "WaitAfterDisconnect"}
+  CASE nxt = "Disabled" -> prev \in {"none", "Connected", "Connecting", "WaitAfterFailedConnect", "WaitAfterDisconnect", "Open", "Wait"}
     [] nxt = "Connecting" -> prev \in {"Disabled", "WaitAfterFailedConnect", "WaitAfterDisconnect", "Connected"} /\ pre.enabled
     [] nxt = "Connected" -> prev = "Connecting"
     [] nxt = "WaitAfterFailedConnect" -> prev = "Connecting"
     [] nxt = "WaitAfterDisconnect" -> prev = "Connected"
     [] nxt = "Shutdown" -> prev # "Shutdown" /\ prev # "none"
+    \* PortState of the serial task
+    [] nxt = "Open" -> prev \in {"Disabled", "Wait"} /\ pre.enabled /\ pre.portOk
+    [] nxt = "Wait" -> prev \in {"Disabled", "Wait", "Open"}
     [] OTHER -> FALSE
 
 Monitor ==
@@ -139,7 +158,7 @@ ShutdownOnlyWhenGone ==
 OneOutstanding == (s.cur # NoCur) <=> (s.pc = "await")
 OnlyMatchingCompletes ==
   [][ \A d \in NewDone : d.class \in {"ok", "exc", "err"} =>
-        LET h == MbapHead(s.rbuf) IN h.st = "frame" /\ h.tx = s.cur.tx ]_mvars
+        LET h == RHead IN h.st = "frame" /\ (s.framing = "tcp" => h.tx = s.cur.tx) ]_mvars
 TxAdvancesPerDequeue ==
   [][ (s.pc = "idle" /\ s.queue # <<>> /\ Head(s.queue).t = "req" /\ Len(s'.queue) < Len(s.queue) /\ s'.pc # "aborted")
         => s'.txid = (s.txid + 1) % TxMod ]_mvars
@@ -157,10 +176,14 @@ ShutdownIsLast == lst.shutdowns <= 1
 
 \* C14: the announced delay is the delay waited
 DelaysFollowStrategy ==
-  [][ (out'.e = "listener" /\ out'.state \in {"WaitAfterFailedConnect", "WaitAfterDisconnect"})
+  [][ (out'.e = "listener" /\ out'.state \in {"WaitAfterFailedConnect", "WaitAfterDisconnect", "Wait"})
         => /\ s'.wake = s.now + out'.d
            /\ out'.d >= s.rmin /\ out'.d <= s.rmax
-           /\ (out'.state = "WaitAfterDisconnect" => out'.d = s.rmin) ]_mvars
+           /\ (s'.pc = "wait_disc" => out'.d = s.rmin)
+           /\ (s'.pc = "wait_fail" => out'.d = s.retryCur) ]_mvars
+\* C14 (serial): an open attempt is made only when enabled, and its announced outcome is the port's
+OpenOutcome ==
+  [][ (out'.e = "listener" /\ out'.state = "Open") => s.portOk /\ s'.retryCur = s.rmin ]_mvars
 AttemptNotBeforeWake ==
   [][ (s.pc \in {"wait_fail", "wait_disc"} /\ s'.pc = "post" /\ s.enabled /\ s'.enabled) => s.now >= s.wake ]_mvars
 
